@@ -181,11 +181,19 @@ static const char *const tpl_req[] = {
 	"GET /a HTTP/1.1\nA:b\n\nZ",
 	"PUT /x HTTP/1.0\r\nAb:  c d \t\r\nE:\r\n\r\n",
 	"A /b HTTP/2\r\nK: v\r\nL: w\r\n\r\n",
+	"GET /a HTTP/1.1\r\nK: v\r\n",    /* incomplete head */
+	"GET /a\r\nK: v\r\n\r\n",        /* malformed request line: 400 */
+	"GET /a HTTP/7\r\n\r\n",           /* unsupported version: 505 */
+	"GET /a HTTP/1.1\r\nKv\r\n\r\n", /* header without ':' */
+	"GET /a HTTP/1.1\r\nK:\x01v\r\n\r\n", /* control character */
 };
 static const char *const tpl_res[] = {
 	"HTTP/1.1 200 OK\r\nK: v\r\n\r\n",
 	"HTTP/1.0 404 Not here\nA:b\n\nZ",
 	"HTTP/2 99 x\r\n\r\n",
+	"HTTP/1.1 200 OK\r\nK: v\r\n", /* incomplete head */
+	"HTTP/1.1 200\r\n\r\n",        /* no reason phrase separator */
+	"HTTP/1.1 200 OK\r\nK v\r\n\r\n",
 };
 #define MAXL 40
 
